@@ -10,6 +10,13 @@ structure Res where
   prop : String := ""
   /-- further monitor verdicts `(property, reason)` for components that serve several properties -/
   more : List (String × String) := []
+  /-- `some reason` iff the component decides acceptance of a RECORDED history by a bounded search (closure over hidden
+  model steps with a fuel / beam / budget) and the search GAVE UP before it could either exhibit an execution of the
+  model with the recorded projection or exclude one on a fully explored frontier.  Such a line is INCONCLUSIVE, never a
+  rejection: the component then puts the output of an ACCEPTED history into `model` (no `MISMATCH` from the search), the
+  spec monitor still judges the line, and the driver prints an `INCONCLUSIVE` line so that `check` can count it
+  (`coverage.inconclusive_acceptance_searches` of the evidence). -/
+  inconclusive : Option String := none
   deriving Inhabited
 
 def bad (why : String) : Res := { model := "bad-op " ++ why }
